@@ -2248,3 +2248,32 @@ PROPS["C06"]["level_text"] += (" Quoted key on the whole document (Props/C06KeyD
     "is accepted with x exactly when the key-level textKeyInt is (any rest, any position); c06_key_doc_bool - the instance {\"lit\":true}; "
     "kernel-checked examples {\"-128\":true} / {\"128\":true} / {\"-0\":true} / {\"1.0\":true} / {\"1e2\":true} into i8 / u8 / u16 keys, "
     "{\"340282366920938463463374607431768211455\":true} and 2^128 into u128 keys, {\"255\":[null]} into BTreeMap<u8, Vec<()>>.")
+
+# ---- C12: the undelimited bare scalar and the offset of an error item as theorems over Model.Stream (branch wip-t2): Props/C12Scalar.lean
+PROPS["C12"]["partial"] = [x for x in PROPS["C12"]["partial"] if not x.startswith("'an undelimited bare scalar yields an error' and 'byte_offset() of an error item")] + [
+    "'an undelimited bare scalar yields an error' and 'byte_offset() of an error item is the first byte of that value' are theorems about "
+    "Model.Stream.next (c12_undelimited_scalar_error with c12_undelimited_literal / c12_undelimited_number; next_err_cases, "
+    "c12_error_offset_first_byte, c12_error_offset_first_byte_of_code), for Value and IgnoredAny items; their tie to the crate is the "
+    "correspondence, as for every model. What the theorems say is what crate and model do, and it is NOT 'every error item fuses the "
+    "stream': the TrailingCharacters report of peek_end_of_value after a complete bare scalar leaves byte_offset() just past the scalar, "
+    "does not call set_failed, and the next call goes on at the offending byte (truex: TrailingCharacters, then the error of the malformed "
+    "value x with byte_offset() at x, then None forever; nullnull: TrailingCharacters, null, None). C12's 'byte_offset() at the first byte "
+    "of that value, None forever' is read as a clause about the malformed or truncated value (an error of Deserialize::deserialize), for which "
+    "it is proved without exception; the scalar's own error is the only other error item (next_err_cases). Typed items: the same split is "
+    "c12_typed_error_fails"]
+PROPS["C12"]["lean_targets"] = PROPS["C12"]["lean_targets"][:-1] + ["SJ.Props.C12Scalar"] + PROPS["C12"]["lean_targets"][-1:]
+PROPS["C12"]["level_text"] += (" Undelimited scalars and error offsets (Props/C12Scalar.lean, over runPrefix_complete / skipWs_ws / c12_fused / "
+    "c12_progress): c12_undelimited_scalar_error - for every environment (Value and IgnoredAny items, every source and configuration), any "
+    "non-failed state with unread input w ++ v ++ d :: r, w whitespace, v a derivable value not starting with [ \" { (a number meeting the "
+    "range side condition, true, false, null) and d outside Gen.streamDelims (the list of peek_end_of_value, regenerated from src/de.rs) and, "
+    "after a number, not continuing the literal (digit . e E; + and - do not continue a complete literal, so 1-2 is covered), next() yields "
+    "Err(TrailingCharacters) with index |w ++ v| + 1 past the start, byte_offset() just past v, the stream not failed and its unread input "
+    "d :: r; c12_undelimited_literal (true / false / null, no side condition) and c12_undelimited_number (any well-formed literal; in range "
+    "for Value items, unconditional for IgnoredAny) are the instances. next_err_cases - an error item of next() from a non-failed state is "
+    "either the error of runPrefix on the input after the skipped whitespace, with the new state failed and positioned there, or "
+    "TrailingCharacters at e + 1 after a complete value ending at e with a non-delimiter behind it, byte_offset() = e, not failed. "
+    "c12_error_offset_first_byte - unread input w ++ r with w the skipped whitespace: every error item that fails the stream (every error of "
+    "Deserialize::deserialize) has byte_offset() = position + |w|, the first byte of that value, the input frozen there, and every later "
+    "call yields None for any number of calls; the only other error item is the scalar's TrailingCharacters, ending strictly later; "
+    "c12_error_offset_first_byte_of_code - the first alternative for every code other than TrailingCharacters. Kernel-checked traces "
+    "(item kind, byte_offset(), failed flag per call): truex, 1x, nullnull, ' \\n falsey', 1.5ex, and the controls 1 2 and true].")
